@@ -424,6 +424,16 @@ def force_shapes(rng, topo, flavour, g):
             do({'op': 'keep_handle', 'service': sc})
             do({'op': 'rename', 'elem': ['service', sc], 'new': scn})
             do({'op': 'peer', 'a': ['kept'], 'b': scn})
+        # a service whose creating handle is kept while, through a handle looked up later, one interface is taken off and another
+        # connected (as many as before, other ones)
+        wn, wc1, wc2, ws = g.fresh('fn'), g.fresh('fc'), g.fresh('fc'), g.fresh('swp')
+        if do({'op': 'add_node', 'name': wn, 'node_id': None, 'site': 'RENC', 'ntype': 'VM'}) and \
+                do({'op': 'add_component', 'node': wn, 'name': wc1, 'node_id': None, 'model_type': 'SmartNIC_ConnectX_6'}) and \
+                do({'op': 'add_component', 'node': wn, 'name': wc2, 'node_id': None, 'model_type': 'SmartNIC_ConnectX_6'}):
+            if do({'op': 'add_network_service', 'name': ws, 'node_id': None, 'nstype': 'L2Bridge',
+                   'interfaces': [[wn, wc1 + '-p1'], [wn, wc1 + '-p2']]}):
+                do({'op': 'disconnect_interface', 'service': ws, 'iface': [wn, wc1 + '-p1'], 'cached': False})
+                do({'op': 'connect_interface', 'service': ws, 'iface': [wn, wc2 + '-p1'], 'cached': False})
     else:
         sw = g.fresh('fsw')
         do({'op': 'add_switch', 'name': sw, 'node_id': g.fresh('sw-id'), 'site': 'RENC', 'nports': 3})
